@@ -1077,6 +1077,28 @@ func (in *interp) runStub(fr *frame, fi *fnInfo, args []value) value {
 		return t
 	}
 	parts := strings.Split(kind, ":")
+	if parts[0] == "injsel" && len(parts) >= 4 {
+		// injsel:<N>:<TypeSubstring>:<field index>: like inj, but an argument that is (an interface
+		// holding) a pointer to a struct whose type name contains TypeSubstring is replaced by that one
+		// field of the struct — the part of the object the encoding really depends on
+		fld := 0
+		fmt.Sscan(parts[3], &fld)
+		sel := make([]value, len(args))
+		for i, a := range args {
+			sel[i] = a
+			v, tname := a, ""
+			if it, ok := a.(iface); ok && it.t != nil {
+				v, tname = it.v, it.t.String()
+			}
+			if p, ok := v.(*value); ok && p != nil {
+				if st, ok := (*p).(structure); ok && fld < len(st) && (tname == "" || strings.Contains(tname, parts[2])) {
+					sel[i] = st[fld]
+				}
+			}
+		}
+		args = sel
+		parts = []string{"inj", parts[1]}
+	}
 	switch parts[0] {
 	case "noop":
 		return mk(func(t types.Type, i int) value { return in.zero(t) })
